@@ -825,9 +825,10 @@ def child_main():
 
     class SetupA:
         """initiator against FIXTester's simulated acceptor (the helper wires the fake writers itself)"""
-        def __init__(self):
+        def __init__(self, start=(1, 1)):
             self.init = Init()
             self.init._connection_state = ConnectionState.NETWORK_CONN_ESTABLISHED
+            self.init._session.next_num_out, self.init._session.next_num_in = start
             self.ft = FIXTester(schema=SCHEMA, connection=self.init)
             self.tx = []
             inner = self.init._socket_writer.write.side_effect
@@ -855,11 +856,14 @@ def child_main():
 
     class SetupB:
         """initiator against a real AsyncFIXDummyServer object; fake writers cross-wired in memory"""
-        def __init__(self):
+        def __init__(self, start=(1, 1)):
             self.init = Init()
             self.init._connection_state = ConnectionState.NETWORK_CONN_ESTABLISHED
+            self.init._session.next_num_out, self.init._session.next_num_in = start
             self.srv = AsyncFIXDummyServer(FIXProtocol44(), "ACCEPTOR", "INITIATOR", Journaler(), "localhost", 64444, 30, log)
             self.srv._connection_state = ConnectionState.NETWORK_CONN_ESTABLISHED     # what _handle_accept does
+            # a real acceptor resumed on its journal of the same session: its counters mirror the initiator's
+            self.srv._session.next_num_in, self.srv._session.next_num_out = start
             self.i2a, self.a2i = Wire(), Wire()
             self.init._socket_writer = self.i2a.writer()
             self.srv._socket_writer = self.a2i.writer()
@@ -973,9 +977,13 @@ def child_main():
             ntx, nrx, nev = len(S.tx), len(S.init.rx), len(S.init.events)
         return out
 
+    STARTS = [(1, 1), (1, 1), (5, 4), (3, 9), (12, 2)]
+
     def one(setup, script):
+        # resumed sessions (asymmetric starting counters) for part of the scripts, chosen by the script itself
+        start = STARTS[sum(len(str(k)) for k in script) % len(STARTS)]
         try:
-            return asyncio.run(asyncio.wait_for(run_script(setup(), script), 10))
+            return asyncio.run(asyncio.wait_for(run_script(setup(start), script), 10))
         except Exception as e:  # noqa: BLE001
             return [{"crash": type(e).__name__ + ": " + str(e)[:200]}]
 
